@@ -1,5 +1,131 @@
+import SamVerif.Model.Useful
 import Driver.Util
-/-! Line-protocol driver for property C07 (model side). Not implemented yet. -/
+/-! Protocol `patcheck` (C07), model side.
+
+Line: `chk <hex source (ignored here)> <kind> <scrutinee type id> T <n> <def>… P <m> <spat>…`
+* kind: `match` | `let` | `iflet`
+* def:  `E <cls> <k> (<variant name> <arity> <type id>…)…` | `S <k> (<field name> <type id>)…` | `P`
+* spat: `W` | `I` | `T <k> p…` | `O <k> (<field name> p)…` | `V <tag> <k> p…` | `R <k> p…`
+Answer: `nonexh=<counterexample or -> useless=<0|1> err=<0|1> panic=<0|1> typed=<0|1>`; variant names are
+printed as `#<id>` (the Python side substitutes the names). `fuel` is printed instead if the fuel ran out. -/
+namespace Driver.C07
+open SamVerif.Useful Driver
+
+abbrev Toks := List String
+
+partial def parseN {α : Type} (f : Toks → Option (α × Toks)) : Nat → Toks → Option (List α × Toks)
+  | 0, ts => some ([], ts)
+  | n + 1, ts => do
+    let (a, ts) ← f ts
+    let (as, ts) ← parseN f n ts
+    pure (a :: as, ts)
+
+def parseNat : Toks → Option (Nat × Toks)
+  | t :: ts => t.toNat?.map (·, ts)
+  | [] => none
+
+def parseVariant : Toks → Option ((Nat × List Nat) × Toks)
+  | name :: ar :: ts => do
+    let n ← name.toNat?
+    let a ← ar.toNat?
+    let (tys, ts) ← parseN parseNat a ts
+    pure ((n, tys), ts)
+  | _ => none
+
+def parseField : Toks → Option ((Nat × Nat) × Toks)
+  | name :: ty :: ts => do pure ((← name.toNat?, ← ty.toNat?), ts)
+  | _ => none
+
+def parseDef : Toks → Option (Def × Toks)
+  | "P" :: ts => some (.prim, ts)
+  | "E" :: cls :: k :: ts => do
+    let (vs, ts) ← parseN parseVariant (← k.toNat?) ts
+    pure (.enum (← cls.toNat?) vs, ts)
+  | "S" :: k :: ts => do
+    let (fs, ts) ← parseN parseField (← k.toNat?) ts
+    pure (.struct fs, ts)
+  | _ => none
+
+mutual
+partial def parsePat : Toks → Option (SPat × Toks)
+  | "W" :: ts => some (.wild, ts)
+  | "I" :: ts => some (.id, ts)
+  | "T" :: k :: ts => do
+    let (ps, ts) ← parseN parsePat (← k.toNat?) ts
+    pure (.tuple ps, ts)
+  | "R" :: k :: ts => do
+    let (ps, ts) ← parseN parsePat (← k.toNat?) ts
+    pure (.or ps, ts)
+  | "V" :: tag :: k :: ts => do
+    let (ps, ts) ← parseN parsePat (← k.toNat?) ts
+    pure (.variant (← tag.toNat?) ps, ts)
+  | "O" :: k :: ts => do
+    let (fs, ts) ← parseN parseFieldPat (← k.toNat?) ts
+    pure (.object (fs.map (·.1)) (fs.map (·.2)), ts)
+  | _ => none
+partial def parseFieldPat : Toks → Option ((Nat × SPat) × Toks)
+  | name :: ts => do
+    let (p, ts) ← parsePat ts
+    pure ((← name.toNat?, p), ts)
+  | [] => none
+end
+
+mutual
+partial def render : Pat → String
+  | .wild => "_"
+  | .or ps => " | ".intercalate (ps.map render)
+  | .struct none args => "(" ++ ", ".intercalate (args.map render) ++ ")"
+  | .struct (some c) args =>
+    if args.isEmpty then s!"#{c.name}" else s!"#{c.name}(" ++ ", ".intercalate (args.map render) ++ ")"
+end
+
+def cxOf (defs : List Def) : Cx := fun cls =>
+  match defs.find? (fun d => match d with | .enum c _ => c = cls | _ => false) with
+  | some (.enum _ vs) => vs.map (fun v => (v.1, v.2.length))
+  | _ => []
+
+def fuel : Nat := 10000000
+
+def b (x : Bool) : String := if x then "1" else "0"
+
+def answer (kind : String) (ty : Nat) (defs : List Def) (pats : List SPat) : String :=
+  let sig : Sig := fun t => defs.getD t .prim
+  let cx := cxOf defs
+  -- if-let: `wildcard_on_bad_pattern = false` (main_checker.rs:939); match / let: `true` (981, 1539)
+  let wildOnBad := kind != "iflet"
+  let ns := pats.map (fun p => normalize sig wildOnBad p (some ty))
+  let aps := ns.map (·.pat)
+  let err := ns.any (·.err)
+  let pan := ns.any (·.panic)
+  let typed := aps.all (fun p => patTy sig p ty)
+  if kind == "iflet" then
+    -- main_checker.rs:940-946: useless (irrefutable) iff a wildcard is not useful after the pattern
+    match isAdditionalPatternUsefulF cx fuel aps .wild with
+    | none => "fuel"
+    | some u => s!"nonexh=- useless={b (!u)} err={b err} panic={b pan} typed={b typed}"
+  else
+    match incompleteCounterexampleF cx fuel aps with
+    | none => "fuel"
+    | some none => s!"nonexh=- useless=0 err={b err} panic={b pan} typed={b typed}"
+    | some (some d) => s!"nonexh={(render d).replace " " "~"} useless=0 err={b err} panic={b pan} typed={b typed}"
+
+def step (_ : Unit) (line : String) : Unit × String :=
+  match words line with
+  | "chk" :: _ :: kind :: ty :: "T" :: n :: rest =>
+    let r := do
+      let (defs, rest) ← parseN parseDef (← n.toNat?) rest
+      match rest with
+      | "P" :: m :: rest =>
+        let (pats, _) ← parseN parsePat (← m.toNat?) rest
+        pure (answer kind (← ty.toNat?) defs pats)
+      | _ => none
+    ((), r.getD "bad-line")
+  | _ => ((), "bad-op")
+
+def run : IO Unit := runLoop () step
+
+end Driver.C07
+
 def main (_args : List String) : IO UInt32 := do
-  IO.eprintln "drv-c07: not implemented yet"
-  return 2
+  Driver.C07.run
+  return 0
